@@ -377,5 +377,5 @@ def check(ctx: Ctx, col: Collector, tier: str) -> None:
                                                  *([] if inner and not probs else [sorted(set(probs or ['loop over moved declarations not found']))[0]]))
     from .shared import share
     share(ctx, col, "C17", {"C17.RECURSE", "C17.FILTER"}, "inherited members are emitted exactly once")
-    share(ctx, col, "C04", {"C04.REEXPORT-GUARDS", "C04.PUBLICITY-TABLE"}, "nothing public is dropped: the publicity decision is the reference one")
+    share(ctx, col, "C04", {"C04.REEXPORT-GUARDS", "C04.REEXPORT-TABLE", "C04.PUBLICITY-TABLE"}, "nothing public is dropped: the publicity decision is the reference one")
     col.assume("that both shortest-re-export computations (string matching over arbitrary names) pick the same target, and name collisions after conversion, are not decided")
